@@ -715,3 +715,144 @@ contract(
               ("inner_end_left", 'end_idxs = table.end.searchsorted(ends, "right")', 'end_idxs = table.end.searchsorted(ends, "left")'),
               ("outer_end_right", "end_idxs = table.start.searchsorted(ends)", 'end_idxs = table.start.searchsorted(ends, "right")')],
 )
+
+
+# ----------------------------------------------------------------------------- deductive: subtraction
+# _subtraction is proved against assumed contracts of by_ranges (which rows of the subtrahend overlap each row) and
+# merge (sorted, strictly separated cover of exactly the union); subtract() is then proved against _subtraction's
+# contract.  Set-of-bases clauses are written pointwise over a base x, guarded by an uninterpreted marker base(x)
+# (see uf_bool) so that the solver has a term to instantiate them on.
+from .c_call import CHROM, GENE       # noqa: E402
+
+_ROW = RecT("Pandas", chromosome=CHROM, start=Int, end=Int, gene=GENE)
+_KEEP = TabT(index="any", chromosome=CHROM, start=Int, end=Int, gene=GENE)
+_EXCL = TabT(index="range", chromosome=CHROM, start=Int, end=Int)
+
+# what by_ranges(other, table, "outer", True) hands to _subtraction: one (row, overlapping rows of `other`) pair per row
+# of `table` (rows grouped by chromosome: position i of the sequence is row perm(i) of the table)
+_PERM = "uf_int('perm', i)"
+contract(
+    "skgenome/intersect.py::by_ranges",
+    params=dict(table=_EXCL, other=_KEEP, mode=Lit("outer"), keep_empty=Lit(True)),
+    yields=TupT(_ROW, TabT(index="any", chromosome=CHROM, start=Int, end=Int)),
+    trusted=True, requires=[],
+    ensures=[
+        ("one_pair_per_row", "len(result) == len(other)"),
+        ("rows_permuted", "forall(0, len(other), lambda i: 0 <= uf_int('perm', i) and uf_int('perm', i) < len(other) and "
+                          "0 <= uf_int('perm_inv', i) and uf_int('perm_inv', i) < len(other) and "
+                          "uf_int('perm', uf_int('perm_inv', i)) == i)"),
+        ("row_is_table_row", "forall(0, len(result), lambda i: let(lambda q: result[i][0].chromosome == other.chromosome[q] and "
+                             "result[i][0].start == other.start[q] and result[i][0].end == other.end[q] and "
+                             "result[i][0].gene == other.gene[q], uf_int('perm', i)))"),
+        # the overlapping rows of `table` form the block [lo, hi) of its rows (it is sorted and disjoint), in order
+        ("block", "forall(0, len(result), lambda i: let(lambda lo, hi: 0 <= lo and lo <= hi and hi <= len(table) and "
+                  "len(result[i][1]) == hi - lo and forall(0, hi - lo, lambda m: "
+                  "result[i][1].chromosome[m] == table.chromosome[lo + m] and result[i][1].start[m] == table.start[lo + m] and "
+                  "result[i][1].end[m] == table.end[lo + m]) and "
+                  "forall(0, len(table), lambda r: (lo <= r and r < hi) == (table.chromosome[r] == result[i][0].chromosome and "
+                  "table.end[r] > result[i][0].start and table.start[r] < result[i][0].end)), "
+                  "uf_int('blk_lo', i), uf_int('blk_hi', i)))"),
+    ],
+    props=(), domain="skip",
+    notes="assumed here (pandas groupby + searchsorted underneath); the same statement is what the bounded C07 contracts "
+          "check on generated tables (GenomicArray.by_ranges, outer mode, keep_empty)",
+)
+
+_SORTED = ("forall(0, len(T), lambda r: T.start[r] < T.end[r] and forall(0, len(T), lambda r2: "
+           "implies(r < r2 and T.chromosome[r] == T.chromosome[r2], T.end[r] < T.start[r2])))")
+CONTRACTS["skgenome/intersect.py::by_ranges"].requires = [_SORTED.replace("T", "table").replace("< table.start[r2]", "<= table.start[r2]")]
+
+_Q = "uf_int('perm', i)"
+# piece j, yielded while keeper number i was being processed, is a sound piece of table row q = perm(i)
+_SOUND = ("(0 <= q and q < len(table) and out_[j].chromosome == table.chromosome[q] and out_[j].gene == table.gene[q] and table.start[q] <= out_[j].start and "
+          "out_[j].start < out_[j].end and out_[j].end <= table.end[q] and forall(0, len(other), lambda r: "
+          "implies(other.chromosome[r] == table.chromosome[q], other.end[r] <= out_[j].start or out_[j].end <= other.start[r])))")
+# base x of table row q is in no row of other
+_FREE = ("(uf_bool('base', x) and table.start[q] <= x and x < table.end[q] and forall(0, len(other), lambda r: "
+         "not (other.chromosome[r] == table.chromosome[q] and other.start[r] <= x and x < other.end[r])))")
+_COVERED = "exists(0, len(out_), lambda j: src_[j][0] == i and out_[j].start <= x and x < out_[j].end)"
+
+contract(
+    "skgenome/subtract.py::_subtraction",
+    params=dict(table=_KEEP, other=_EXCL),
+    yields=_ROW,
+    requires=[_SORTED.replace("T", "other"),
+              "forall(0, len(table), lambda q: table.start[q] < table.end[q])"],
+    loops={
+        0: dict(inv=[
+            ("pieces_sound", "forall(0, len(out_), lambda j: let(lambda i: 0 <= i and i < i_ and let(lambda q: SOUND, PERM), src_[j][0]))"
+                             .replace("SOUND", _SOUND).replace("PERM", _Q)),
+            ("rows_done_covered", "forall(0, i_, lambda i: forall(lambda x: let(lambda q: implies(FREE, COVERED), PERM)))"
+                                  .replace("FREE", _FREE).replace("COVERED", _COVERED).replace("PERM", _Q)),
+        ]),
+        1: dict(inv=[
+            ("pieces_sound", "forall(0, len(out_), lambda j: let(lambda i: 0 <= i and i <= i0_ and let(lambda q: SOUND, PERM), src_[j][0]))"
+                             .replace("SOUND", _SOUND).replace("PERM", _Q)),
+            ("rows_done_covered", "forall(0, i0_, lambda i: forall(lambda x: let(lambda q: implies(FREE, COVERED), PERM)))"
+                                  .replace("FREE", _FREE).replace("COVERED", _COVERED).replace("PERM", _Q)),
+            ("covered_up_to_frontier", "let(lambda i: forall(lambda x: let(lambda q: implies(FREE and x < ite(i_ < len(starts), starts[i_], keeper.end), "
+                                       "COVERED), PERM)), i0_)"
+                                       .replace("FREE", _FREE).replace("COVERED", _COVERED).replace("PERM", _Q)),
+        ]),
+    },
+    ensures=[
+        ("pieces_sound", "forall(0, len(result), lambda j: let(lambda i: 0 <= i and i < len(table) and let(lambda q: SOUND, PERM), src_[j][0]))"
+                         .replace("SOUND", _SOUND.replace("out_", "result")).replace("PERM", _Q)),
+        ("every_free_base_covered", "forall(0, len(table), lambda i: forall(lambda x: let(lambda q: implies(FREE, COVERED), PERM)))"
+                                    .replace("FREE", _FREE).replace("COVERED", _COVERED.replace("out_", "result")).replace("PERM", _Q)),
+        # every row of the table is some keeper: perm is onto
+        ("every_row_is_a_keeper", "forall(0, len(table), lambda q: 0 <= uf_int('perm_inv', q) and uf_int('perm_inv', q) < len(table) and "
+                                  "uf_int('perm', uf_int('perm_inv', q)) == q)"),
+    ],
+    props=("C06",), domain="skip",
+    canaries=[("seed_C06_1", "starts = np.r_[keeper.start, rows_to_exclude.end.values[:-1]]", "starts = np.r_[keeper.start, rows_to_exclude.end.values[:1]]"),
+              ("keep_left_flipped", "keep_left = keeper.start < rows_to_exclude.start.iat[0]", "keep_left = keeper.start > rows_to_exclude.start.iat[0]"),
+              ("end_not_clipped", "yield keeper._replace(start=start, end=end)", "yield keeper._replace(start=start)"),
+              ("slice_dropped", "ends = np.r_[rows_to_exclude.start.values[1:], keeper.end]", "ends = np.r_[rows_to_exclude.start.values, keeper.end]"),
+              ("covered_region_kept", "continue", "yield keeper; continue")],
+    notes="equivalent mutants (not canaries): `end >= start` and keep_right taken from the first excluded row -- the "
+          "strictly separated exclusions make the extra pieces empty, and empty pieces are discarded",
+)
+
+# merge: assumed (checked at run time by the bounded C06 contracts): sorted, strictly separated rows covering exactly
+# the bases of the input, chromosome by chromosome
+_IV3 = TabT(index="any", chromosome=CHROM, start=Int, end=Int)
+contract(
+    "skgenome/merge.py::merge",
+    params=dict(table=_IV3, bp=Lit(0), stranded=Lit(False), combine=Lit(None)),
+    returns=_EXCL, trusted=True, requires=[],
+    ensures=[
+        ("sorted_separated", _SORTED.replace("T", "result")),
+        ("covers_input", "forall(0, len(table), lambda r: forall(lambda x: implies(uf_bool('base', x) and table.start[r] <= x and x < table.end[r], "
+                         "exists(0, len(result), lambda m: result.chromosome[m] == table.chromosome[r] and result.start[m] <= x and x < result.end[m]))))"),
+        ("covers_only_input", "forall(0, len(result), lambda m: forall(lambda x: implies(uf_bool('base', x) and result.start[m] <= x and x < result.end[m], "
+                              "exists(0, len(table), lambda r: table.chromosome[r] == result.chromosome[m] and table.start[r] <= x and x < table.end[r]))))"),
+    ],
+    props=(), domain="skip",
+    notes="assumed; the bounded contract of GenomicArray.merge checks the same statement (minimal sorted disjoint "
+          "non-abutting cover of exactly the union) on generated tables",
+)
+
+_IN_OTHER = "exists(0, len(other), lambda r: other.chromosome[r] == CH and other.start[r] <= x and x < other.end[r])"
+contract(
+    "skgenome/subtract.py::subtract",
+    params=dict(table=_KEEP, other=_IV3),
+    returns=TabT(index="range", chromosome=CHROM, start=Int, end=Int, gene=GENE),
+    requires=["forall(0, len(table), lambda q: table.start[q] < table.end[q])"],
+    ensures=[
+        # every base of every output piece lies in a row of `table` with the piece's other fields, and in no row of `other`
+        ("only_bases_of_a_not_in_b", "forall(0, len(result), lambda j: forall(lambda x: implies(uf_bool('base', x) and result.start[j] <= x and x < result.end[j], "
+                                     "exists(0, len(table), lambda q: table.chromosome[q] == result.chromosome[j] and table.gene[q] == result.gene[j] and "
+                                     "table.start[q] <= x and x < table.end[q]) and not IN_OTHER)))".replace("IN_OTHER", _IN_OTHER.replace("CH", "result.chromosome[j]"))),
+        # every base of a row of `table` that no row of `other` covers lies in an output piece carrying that row's fields
+        ("all_bases_of_a_not_in_b", "forall(0, len(table), lambda q: forall(lambda x: implies(uf_bool('base', x) and table.start[q] <= x and x < table.end[q] "
+                                    "and not IN_OTHER, exists(0, len(result), lambda j: result.chromosome[j] == table.chromosome[q] and "
+                                    "result.gene[j] == table.gene[q] and result.start[j] <= x and x < result.end[j]))))"
+                                    .replace("IN_OTHER", _IN_OTHER.replace("CH", "table.chromosome[q]"))),
+        ("pieces_nonempty", "forall(0, len(result), lambda j: result.start[j] < result.end[j])"),
+    ],
+    props=("C06", "C12", "C13"), domain="skip",
+    canaries=[("subtrahend_not_merged", 'other = merge(other.loc[:, ["chromosome", "start", "end"]])', 'other = other.loc[:, ["chromosome", "start", "end"]]'),
+              ("arguments_swapped", "_subtraction(table, other)", "_subtraction(other, table)"),
+              ],
+)
